@@ -110,6 +110,21 @@ PROPS["C24"] = dict(expect_probes=["stream_fully_agreed", "hostile_stream"], eng
     level_note="Trusted: simrt/simio, href.ParseRequest (strict: rejects bare LF, obs-fold, invalid tokens, non-digit or conflicting lengths, codings other than a single final chunked; Content-Length together with chunked is framed by chunked per RFC 7230 3.3.3). BFE being stricter than the reference is not flagged. Input-driven; the simulation contributes segmentation.",
     technique="deterministic simulation: seeded segmentation of a multi-request byte stream feeding the real parser, differential against an executable RFC 7230 reference")
 
+PROPS["C25"] = dict(expect_probes=['c25_forwarded_checked', 'hostile_request'], gomaxprocs=1, selftest_gomaxprocs=("1", "1", "1"), engine="C", runs=(1500, 60000), modes=[("nofault", 0.3), ("swarm", 0.7)], race=False, level="exploration", design="§6 Engine C / C25",
+    level_text="Whole-node simulation in which client requests carry hostile material (bare CR, NUL and high bytes in values, obs-folded lines, CR in targets, percent-encoded CRLF, case-variant duplicates, very long values). Every byte sequence a scripted backend receives is parsed by the strict reference parser: it must be exactly one well-formed request per forwarded request with the client's method, target and body, and every field must have been sent by the client (or be BFE's framing / Host). HTTP/1 frontend only; the HTTP/2 and SPDY legs are not built yet.",
+    level_note='Trusted: simrt/simnet, href request parser. Input-driven; observed on the simulated backend wire under segmentation and retries.',
+    technique="deterministic simulation: whole-node run with scripted clients/backends on a simulated network, seeded faults and schedules, wire-level reference-parser oracles")
+
+PROPS["C29"] = dict(expect_probes=['c29_untrusted_checked', 'c29_trusted_checked'], gomaxprocs=1, selftest_gomaxprocs=("1", "1", "1"), engine="C", runs=(1500, 60000), modes=[("nofault", 0.3), ("swarm", 0.7)], race=False, level="exploration", design="§6 Engine C / C29",
+    level_text='Whole-node simulation with mod_trust_clientip and mod_header loaded from generated data files; socket peers inside / outside the trusted table; requests carrying X-Real-Ip, X-Real-Port, X-Forwarded-For, X-Forwarded-Port, Clientip, X-Bfe-Ip with valid and invalid values. Oracle at the scripted backend and through a generated filter reading req.ClientAddr: untrusted peer => ClientAddr, X-Real-Ip and X-Real-Port equal the socket peer, X-Forwarded-For ends with the peer IP; trusted peer => a valid X-Real-Ip is honoured.',
+    level_note='Trusted: simrt/simnet (peer addresses are what the harness gave the simulated socket), href parser. Input/config-driven; claimed as a wire invariant of the node simulation.',
+    technique="deterministic simulation: whole-node run with scripted clients/backends on a simulated network, seeded faults and schedules, wire-level reference-parser oracles")
+
+PROPS["C54"] = dict(expect_probes=['c54_compressed_checked'], gomaxprocs=1, selftest_gomaxprocs=("1", "1", "1"), engine="C", runs=(1500, 60000), modes=[("nofault", 0.3), ("swarm", 0.7)], race=False, level="exploration", design="§6 Engine C / C54",
+    level_text='Whole-node simulation with mod_compress (GZIP or BROTLI rule, quality 1-9, flush size 64-4096) and Accept-Encoding variants; backend bodies arrive in seeded segments, slowly or are cut. Oracle: a response with Content-Encoding decompresses (std gzip / andybalholm brotli reader) to exactly the backend body, the encoding was accepted by the request, no stale Content-Length.',
+    level_note='Trusted: simrt/simnet, href parser, compress/gzip and the brotli reader as decoders.',
+    technique="deterministic simulation: whole-node run with scripted clients/backends on a simulated network, seeded faults and schedules, wire-level reference-parser oracles")
+
 NOT_APPLICABLE = {
     "C10": "pure function of (host table, VIP table, Host header): no goroutine, clock, stream, file or peer takes part; the only thing to vary is input, which is generation, not simulation (DESIGN §7)",
     "C11": "basic-rule tree lookup is a pure function of (rule set, host, path); nothing to schedule or fault (DESIGN §7)",
